@@ -1,6 +1,8 @@
 import Chiritori.Props.C12
 import Chiritori.Lemmas.FormatMerge
 import Chiritori.Lemmas.C14Default
+import Chiritori.Lemmas.C14Full
+import Chiritori.Lemmas.Laminar
 import Chiritori.Props.C02
 /-
   C14 — Whitespace changes are confined to the borders of removals.
@@ -23,9 +25,13 @@ import Chiritori.Props.C02
     deleted index lies in a whitespace run touching such an end (`seam_range_run`), so it cannot reach into a
     trimmed core, whose first and last bytes are not whitespace (`coresKept_of_anchored`); hence the cores survive
     in order (`embeds_minusFrom`) and the greedy matcher of the specification finds them (`occurInOrder_of_embeds`).
-  Not proved yet: the same for sources with an unwrapped block (the block ranges lie in the blanks at the beginning
-  of body lines, which are cut points of the stretches too; what is missing is the correspondence between a marker
-  pair and the body of the element it came from).
+  * `c14`: the full statement for EVERY source.  Unwrapped blocks add two things to the argument above: the pieces
+    are also cut behind every line break inside an unwrapped body (`piecesAux`, which is `stretchesAux` with those
+    line breaks kept as pieces of their own), and a block range lies in the blanks at the beginning of a line that
+    starts strictly between the two seams of a marker pair (`fmtBlockIndent_anchor`); the line break in front of it
+    comes from a source position between the two markers (`keptOf_getElem?`, monotonicity of `koffTo`), which lies
+    in the body of the ready unwrapped element the pair came from (`mergeMarkers_pairBody`, `collect_bodies`), so
+    the line start is the end of a piece.
 -/
 namespace Chiritori.Props.C14
 open Chiritori Chiritori.Spec
@@ -249,6 +255,222 @@ theorem c14_default_partial (src ds de : List Char) (cfg : Cfg) (out : List Char
             rw [← hrs, Bool.eq_iff_iff, C02.inAny_markers, hcov i]
             rfl)
           rw [hstr, hs2, charsOf_bytesOf, ← hs2, heq, hremoved]
+          exact hocc
+
+/-- C14, full statement: for every source, any non-empty delimiters and any configuration, the trimmed stretches
+    of the source outside the ready extents (cut line by line inside unwrapped bodies) occur verbatim and in order
+    in the output of `clean` -/
+theorem c14 : Statement := by
+  intro src ds de cfg out _ hde h
+  unfold clean at h
+  simp only [bind, Except.bind, pure, Except.pure] at h
+  generalize hM : buildRemoveMarker cfg (bytesOf src) (parseSource src ds de) = M at h
+  cases hrm : removeMarkers (bytesOf src) M with
+  | error e => rw [hrm] at h; simp at h
+  | ok removed =>
+    rw [hrm] at h
+    simp only at h
+    cases hpos : getRemovedPos M with
+    | error e => rw [hpos] at h; simp at h
+    | ok pos =>
+      rw [hpos] at h
+      simp only at h
+      cases hf : format removed pos with
+      | error e => rw [hf] at h; simp at h
+      | ok o =>
+        rw [hf] at h
+        simp only at h
+        injection h with h
+        subst h
+        generalize hext : readyExtents cfg (bytesOf src) (parseSource src ds de) = ext
+        generalize hbod : unwrappedBodies cfg (bytesOf src) (parseSource src ds de) = bodies
+        -- the markers: sorted, cover the extents, pair indices valid and meaningful
+        obtain ⟨hs, hcov⟩ := buildRemoveMarker_spec src ds de cfg hde
+        obtain ⟨_, _, hpv⟩ := markers_facts src ds de cfg hde
+        obtain ⟨hok, _⟩ := tokenize_ok src ds de hde
+        have hfl : flattenParts (parseSource src ds de) = tokenize src ds de := parse_flatten ds de _
+        have hspan : BSpan (flattenParts (parseSource src ds de)) 0 (blen src) := by
+          have := BSpan_of_chain _ 0 0 hok.chain
+          rw [hok.flatEq, Nat.zero_add] at this
+          rw [hfl]; exact this
+        obtain ⟨hgeo, _⟩ := collect_spec cfg (bytesOf src) (parseSource src ds de) 0 (blen src) hspan (by simp)
+        have hpb : PairBody bodies M := by
+          rw [← hM]
+          apply mergeMarkers_pairBody _ 0 (blen src) [] bodies hgeo (by simp [PV])
+            (by intro i j mi mj h1; simp at h1)
+          intro x hx
+          obtain ⟨e, he, hxe⟩ := collect_bodies cfg (bytesOf src) _ 0 (blen src) hspan (by simp) x hx
+          rw [← hbod, unwrappedBodies_eq]
+          exact List.mem_flatMap.mpr ⟨e, he, hxe⟩
+        rw [hM] at hs hcov hpv
+        have hcov' : ∀ i, inAny ext i = true ↔ mcov M i := by
+          intro i; rw [hcov i, ← hext]; rfl
+        -- the text after removal: the kept bytes = the concatenation of the pieces
+        have hK : removed = (piecesAux ext bodies (bytesOf src).zipIdx []).flatten := by
+          rw [removeMarkers_eq _ _ 0 (blen src) hs removed hrm, minusRanges_eq_keptOf,
+            piecesAux_flatten, List.nil_append]
+          apply (keptOf_congr _ _ _ _).symm
+          intro i
+          rw [Bool.eq_iff_iff, C02.inAny_markers, hcov' i]
+        -- positions
+        have hpos' := removedPosAux_eq M 0 0 (blen src) hs (Nat.le_refl _)
+        unfold getRemovedPos at hpos
+        rw [hpos'] at hpos
+        injection hpos with hpos
+        have hposk := positions_koffTo ext (bytesOf src) M 0 0 (blen src) hs (by simp)
+          (fun i _ => hcov' i) (by simp [koffTo_zero])
+        obtain ⟨s1, hs1⟩ := deleteAll_wellFormed src _ removed hrm
+        -- the ranges `format` deletes
+        unfold format at hf
+        cases hfc : formatCollect removed pos pos with
+        | error e => rw [hfc] at hf; simp at hf
+        | ok rb =>
+          obtain ⟨ranges, blocks⟩ := rb
+          rw [hfc] at hf
+          simp only at hf
+          have hbo := blocks_origin removed pos pos ranges blocks hfc
+          rw [hs1] at hfc
+          obtain ⟨ok1, ok2⟩ := formatCollect_ok s1 pos pos ranges blocks hfc
+          obtain ⟨loc1, _⟩ := ranges_local s1 pos pos ranges blocks hfc
+          have hall : ∀ x ∈ mergeRanges ranges (sortByStart blocks), RangeOK s1 x := by
+            intro x hx
+            rcases mem_mergeRanges _ _ _ hx with hx | hx
+            · exact ok1 x hx
+            · exact ok2 x (mem_sortByStart _ _ hx)
+          obtain ⟨m1, m2⟩ := mergeOverlapped_spec s1 _ hall
+          rw [deleteRanges_eq_deleteAll] at hf
+          have hrsF := RSorted_of_OSorted s1 _ m1 m2 0 (fun _ _ => Nat.zero_le _)
+          have heq := deleteAll_eq removed _ 0 hrsF o hf
+          simp only [List.take_zero, List.drop_zero, List.nil_append] at heq
+          obtain ⟨s2, hs2⟩ := deleteAll_wellFormed s1 _ o (by rw [← hs1]; exact hf)
+          -- a seam position is the end of a piece
+          have hseam : ∀ p ∈ pos, p.1 ∈ segEnds (piecesAux ext bodies (bytesOf src).zipIdx []) 0 := by
+            intro p hp
+            rw [← hpos] at hp
+            have hp1 := (List.of_mem_zip hp).1
+            rw [hposk] at hp1
+            obtain ⟨m, hm, hmp⟩ := List.mem_map.mp hp1
+            obtain ⟨g1, g2, g3⟩ := MSorted_bounds M 0 (blen src) hs m hm
+            have hlt : m.start < (bytesOf src).length := by simp; omega
+            have hget : (bytesOf src)[m.start]? = some ((bytesOf src)[m.start]) := List.getElem?_eq_getElem hlt
+            have hsplit := zipIdx_split (bytesOf src) m.start _ hget
+            have := (piecesAux_ends ext bodies ((bytesOf src).zipIdx.take m.start) ((bytesOf src)[m.start]) m.start
+              ((bytesOf src).zipIdx.drop (m.start + 1)) [] 0).1 ((hcov' m.start).mpr ⟨m, hm, Nat.le_refl _, g2⟩)
+            rw [← hsplit] at this
+            simp only [List.length_nil, Nat.add_zero, Nat.zero_add] at this
+            rw [← hmp]
+            exact this
+          -- every deleted index is anchored at the end of a piece
+          have hanch : Anchored (mergeOverlapped (mergeRanges ranges (sortByStart blocks)))
+              (piecesAux ext bodies (bytesOf src).zipIdx []).flatten
+              (segEnds (piecesAux ext bodies (bytesOf src).zipIdx []) 0) 0 := by
+            intro d hd
+            have hd2 := merged_subset _ d hd
+            simp only [inAny, List.any_eq_true] at hd2
+            obtain ⟨x, hx, hxd⟩ := hd2
+            simp only [Rng.contains, Bool.and_eq_true, decide_eq_true_eq] at hxd
+            rcases mem_mergeRanges _ _ _ hx with hx | hx
+            · -- a seam range
+              obtain ⟨p, hp, g⟩ := loc1 x hx
+              refine ⟨x.1, x.2, p.1, hxd.1, hxd.2, g.le1, g.le2, ?_, Or.inr (hseam p hp)⟩
+              intro i hi1 hi2
+              obtain ⟨y, hy, hyw⟩ := g.ws i hi1 hi2
+              rw [← hs1, hK] at hy
+              exact ⟨y, hy, isWs_of_isWsByte y hyw⟩
+            · -- a block range
+              have hx' := mem_sortByStart _ _ hx
+              obtain ⟨p, hp, j, q, hpj, hqj, hlt, hxb⟩ := hbo x hx'
+              obtain ⟨ls, ip, a1, a2, a3, a4, a5, a6⟩ := fmtBlockIndent_anchor removed p.1 q.1 x hxb
+              -- the two markers
+              rw [← hpos] at hp hqj
+              obtain ⟨i, hi⟩ := List.mem_iff_getElem?.mp hp
+              rw [List.getElem?_zip_eq_some] at hi hqj
+              obtain ⟨hi1, hi2⟩ := hi
+              obtain ⟨hj1, hj2⟩ := hqj
+              rw [hposk, List.getElem?_map] at hi1 hj1
+              rw [List.getElem?_map] at hi2 hj2
+              cases hmi : M[i]? with
+              | none => rw [hmi] at hi1; simp at hi1
+              | some mi =>
+                cases hmj : M[j]? with
+                | none => rw [hmj] at hj1; simp at hj1
+                | some mj =>
+                  rw [hmi] at hi1 hi2
+                  rw [hmj] at hj1 hj2
+                  simp only [Option.map_some, Option.some.injEq] at hi1 hi2 hj1 hj2
+                  have hpair : mi.pair = some j := by rw [hi2, hpj]
+                  -- the opening part stands left of the closing part
+                  have hij : i < j := by
+                    rcases Nat.lt_trichotomy i j with h | h | h
+                    · exact h
+                    · subst h
+                      rw [hmi] at hmj
+                      injection hmj with hmj
+                      subst hmj
+                      omega
+                    · exfalso
+                      have := MSorted_index_le M 0 (blen src) hs j i mj mi h hmj hmi
+                      have b1 := MSorted_bounds M 0 (blen src) hs mj (List.mem_of_getElem? hmj)
+                      have := koffTo_mono ext (bytesOf src) mj.start mi.start (by omega)
+                      omega
+                  obtain ⟨body, hbody, hb1, hb2⟩ := hpb i j mi mj hmi hpair hij hmj
+                  have bi := MSorted_bounds M 0 (blen src) hs mi (List.mem_of_getElem? hmi)
+                  have bj := MSorted_bounds M 0 (blen src) hs mj (List.mem_of_getElem? hmj)
+                  -- the line break in front of the line comes from a source position inside the body
+                  have hnlK : (keptOf ext (bytesOf src).zipIdx)[ls - 1]? = some (.lead '\n') := by
+                    have := piecesAux_flatten ext bodies (bytesOf src).zipIdx []
+                    rw [List.nil_append] at this
+                    rw [← this, ← hK]; exact a3
+                  obtain ⟨σ, l2, hsplit, hk, hout, hσlt⟩ := keptOf_getElem? ext (bytesOf src) (ls - 1) _ hnlK
+                  have hσ1 : mi.stop ≤ σ := by
+                    rcases Nat.lt_or_ge σ mi.stop with hlt' | hge
+                    · exfalso
+                      have hlt2 : σ < mi.start := by
+                        rcases Nat.lt_or_ge σ mi.start with h | h
+                        · exact h
+                        · have := (hcov' σ).mpr ⟨mi, List.mem_of_getElem? hmi, h, hlt'⟩
+                          rw [hout] at this; simp at this
+                      have := koffTo_strict ext (bytesOf src) σ mi.start hσlt hout hlt2
+                      omega
+                    · exact hge
+                  have hσ2 : σ < mj.start := by
+                    rcases Nat.lt_or_ge σ mj.start with h | h
+                    · exact h
+                    · exfalso
+                      have := koffTo_mono ext (bytesOf src) mj.start σ h
+                      omega
+                  have hinb : inAny bodies σ = true := by
+                    simp only [inAny, List.any_eq_true]
+                    exact ⟨body, hbody, by simp [Rng.contains]; omega⟩
+                  have hend := (piecesAux_ends ext bodies ((bytesOf src).zipIdx.take σ) (.lead '\n') σ l2 [] 0).2
+                    hout hinb rfl
+                  rw [← hsplit] at hend
+                  simp only [List.length_nil, Nat.add_zero, Nat.zero_add] at hend
+                  have hkσ : koff ext ((bytesOf src).zipIdx.take σ) = ls - 1 := hk
+                  rw [hkσ, show ls - 1 + 1 = ls by omega] at hend
+                  -- the blanks at the beginning of that line
+                  obtain ⟨_, c1, _, _, c5⟩ := findNextChar_some removed ls ip a4
+                  have hbl : isBoundary (bytesOf s1) ls = true := by
+                    have := nl_next_boundary s1 (ls - 1) (by rw [← hs1]; exact a3)
+                    rw [show ls - 1 + 1 = ls by omega] at this
+                    exact this.1
+                  obtain ⟨hblank, _⟩ := skip_run_blank s1 ls ip hbl (by rw [← hs1]; exact c5)
+                  refine ⟨ls, ip, ls, by omega, by omega, Nat.le_refl _, c1, ?_, Or.inr hend⟩
+                  intro i' hi1' hi2'
+                  obtain ⟨y, hy, hyb⟩ := hblank i' hi1' hi2'
+                  rw [← hs1, hK] at hy
+                  refine ⟨y, hy, ?_⟩
+                  rcases hyb with rfl | rfl <;> rfl
+          have hocc := occur_of_anchored _ _ hanch
+          -- assemble
+          unfold c14Holds
+          dsimp only
+          rw [hext, hbod]
+          have hstr : stretches (bytesOf src) ext bodies =
+              ((piecesAux ext bodies (bytesOf src).zipIdx []).map trimWs).filter ne := by
+            unfold stretches
+            exact (piecesAux_stretches ext bodies _ []).symm
+          rw [hstr, hs2, charsOf_bytesOf, ← hs2, heq, hK]
           exact hocc
 
 /-! Non-vacuity: a junk source with stray tags and two ready default elements, one of them inline. -/
